@@ -672,3 +672,7 @@ CHECKS["C15"]["required_classes"]["all"] += ["update-through-linked-hash-file", 
 CHECKS["C03"]["jobs"].append(J("odd-layouts", VSTORE, "TestC15OddLayouts", {"shards": 2, "checks": 150}, {"shards": 8, "checks": 6000}))
 CHECKS["C16"]["jobs"].append(J("odd-layouts", VSTORE, "TestC15OddLayouts", {"shards": 2, "checks": 150}, {"shards": 8, "checks": 6000}))
 CHECKS["C16"]["required_classes"]["all"] += ["base-directory:absolute-symlink"]
+CHECKS["C02"]["jobs"].append(J("agent-table", AGENT, "TestC02AgentTable", {"shards": 2, "checks": 60}, {"shards": 8, "checks": 3000}, toolchain="go126"))
+CHECKS["C02"]["required_classes"]["all"] += ["agent-table:empty", "agent-table:unknown-pid"]
+CHECKS["C03"]["jobs"].append(J("subdir-files", VSTORE, "TestC16CheckExact", {"shards": 2, "checks": 300}, {"shards": 8, "checks": 10000}))
+CHECKS["C03"]["required_classes"]["all"] += ["sub-directory-holding-files-named-like-hash-files"]
